@@ -120,9 +120,8 @@ def artefact_identity():
             if ref is None:
                 ref = (tag, v)
             elif v != ref[1]:
-                # a copy that is not element-for-element the automaton explored below is not by itself a violation
-                # (an equivalent automaton, e.g. from a regeneration, recognises the same language): it is put
-                # through the same products; only a product mismatch, or an unreadable automaton, is reported
+                # the property demands identical embedded automata, so any difference is reported; the differing copy
+                # is also put through the same products, so that the report says whether it recognises another language
                 idx = next((i for i, (x, y) in enumerate(zip(v, ref[1])) if x != y), min(len(v), len(ref[1])))
                 where = "first difference from %s at element %d (lengths %d / %d)" % (ref[0], idx, len(v), len(ref[1]))
                 DIFFERENT_COPIES.append((what, tag))
@@ -131,8 +130,7 @@ def artefact_identity():
                 except Exception as e:  # noqa
                     bad.append(("atn-differs-and-unreadable", what, tag, where, common.exc_sig(e)))
                     continue
-                if mism:
-                    bad.append(("atn-differs", what, tag, where, "product: " + repr(mism[:2])[:300]))
+                bad.append(("atn-differs", what, tag, where, ("recognises a different language, product: " + repr(mism[:2])[:300]) if mism else "recognises the same language (products agree)"))
     # vocabularies
     _, lx, ps = reader.read()
     g4_tokens = [r.name for r in lx if not r.fragment]
@@ -188,10 +186,6 @@ def artefact_identity():
     try:
         ps_ = art.normalise_skeleton(art.py_parser_skeleton(P("blackbird_python/blackbird/blackbirdParser.py")), g4_rules)
         cs_ = art.normalise_skeleton(art.cpp_parser_skeleton(P("blackbird_cpp/blackbirdParser.cpp")), g4_rules)
-        if any(w == "parser" for w, _ in DIFFERENT_COPIES):
-            # the automata are not element-for-element the same: state and decision numbers may legitimately differ
-            strip = lambda sk: {r: [it for it in items if it[0] not in ("state", "predict")] for r, items in sk.items()}
-            ps_, cs_ = strip(ps_), strip(cs_)
         for r in g4_rules:
             n += 1
             if ps_.get(r) != cs_.get(r) or not ps_.get(r):
